@@ -331,6 +331,8 @@ structure Obs where
   genuine : List (Node × Nat) := []
   /-- (origin, seq) issued by somebody else's SendFullTable for that origin -/
   relayed : List (Node × Nat) := []
+  /-- `genuine` as it was before the op being checked -/
+  genuinePrev : List (Node × Nat) := []
 
 def Obs.queue (o : Obs) (a b : Node) : List Adv :=
   match o.queues.find? (fun q => q.1 == (a, b)) with
@@ -451,12 +453,22 @@ def opChecks (p : Prop5) (o : Obs) (toks : List String) (v : View) : List (Bool 
                       && (r.kind != 3 || e.nextHop == a)) with
                   | none => (false, "genuine-announcement-not-stored")
                   | some e =>
+                    if e.seq < m.seq then (false, "newer-announcement-not-stored")
+                    else
                     -- not refreshed although the stored sequence number was never issued by the origin
                     (e.seq ≤ m.seq || o.genuine.contains (m.origin, e.seq), "refresh-blocked-by-replayed-sequence"))
             else []
           | _ => []
       | _, _, _ => []
     else []
+  | ["announce", a] =>
+    match p, nat? a with
+    | .c14, some a =>
+      -- every announcement carries a sequence number above everything its origin issued before
+      let news := (v.queues.map (fun q => q.msgs.getLast?.toList)).flatten
+      news.filter (fun m => m.origin == a) |>.map (fun m =>
+        (o.genuinePrev.all (fun g => g.1 != a || g.2 < m.seq), "announcement-reuses-sequence"))
+    | _, _ => []
   | _ => []
 
 /-- Update the observation with this op and the implementation's answer. -/
@@ -532,7 +544,7 @@ def specLine (p : Prop5) (st : Option Obs) (input : String) : Option Obs × Stri
         let o1 := { o with clock := o.clock + 1 }
         -- history-dependent checks use the observation BEFORE this op (but the new clock and relayed set)
         let o' := o.update toks v
-        let oc := { o1 with relayed := o'.relayed, genuine := o'.genuine, links := o'.links }
+        let oc := { o1 with relayed := o'.relayed, genuine := o'.genuine, links := o'.links, genuinePrev := o.genuine }
         let checks :=
           (if p == .c12 && toks == ["dump", "converged"] then convergeChecks oc v else []) ++
           opChecks p oc toks v ++
